@@ -56,6 +56,7 @@ type loopInfo struct {
 	decAt   Term
 	hasDec  bool
 	body    map[*ssa.BasicBlock]bool
+	auto    func(st *State) Term
 }
 
 func (vc *VC) newFrame(fn *ssa.Function, parent *Frame) *Frame {
@@ -228,9 +229,26 @@ func (f *Frame) elemAddrRef(ref Term, elem types.Type) Value {
 func (f *Frame) allocRef(st *State, t types.Type) Term {
 	vc := f.vc
 	ref := vc.freshConst("new", SInt)
-	vc.assumeIn(st, And(Eq(ref, Add(st.top, IntLit(1))), Eq(Base(ref), ref), Eq(RType(ref), IntLit(int64(vc.tagOf(t))))))
+	vc.assumeIn(st, And(Eq(ref, Add(st.top, IntLit(1))), Eq(Base(ref), ref), Eq(App(SInt, "refkind", ref), IntLit(0)), Eq(RType(ref), IntLit(int64(vc.tagOf(t))))))
 	st.top = ref
+	f.markAlive(st, ref, t)
 	return ref
+}
+
+// markAlive records ref (and the structs embedded in it by value) as allocated
+// objects of their types.
+func (f *Frame) markAlive(st *State, ref Term, t types.Type) {
+	s, ok := t.Underlying().(*types.Struct)
+	if !ok {
+		return
+	}
+	hn, hs := f.vc.env.aliveHeap(t)
+	st.SetHeap(hn, Store(st.Heap(f.vc, hn, hs), ref, True))
+	for i := 0; i < s.NumFields(); i++ {
+		if isStruct(s.Field(i).Type()) {
+			f.markAlive(st, f.vc.env.subRef(t, i, ref), s.Field(i).Type())
+		}
+	}
 }
 
 // zeroInit writes the zero value of t at reference/pointer v.
@@ -295,6 +313,9 @@ func (vc *VC) valueFacts(st *State, v Term, t types.Type, depth int) Term {
 		if isStruct(u.Elem()) {
 			// Go's type safety: a non-nil *T points to an object of type T
 			fs = append(fs, Implies(Not(Eq(v, IntLit(0))), Eq(RType(v), IntLit(int64(vc.tagOf(u.Elem()))))))
+			if vc.p.moduleType(u.Elem()) {
+				fs = append(fs, Implies(Not(Eq(v, IntLit(0))), vc.aliveFacts(st, v, u.Elem())))
+			}
 		}
 		return And(fs...)
 	case *types.Map, *types.Chan:
@@ -308,7 +329,7 @@ func (vc *VC) valueFacts(st *State, v Term, t types.Type, depth int) Term {
 				alts = append(alts, Eq(IfTag(v), IntLit(int64(vc.tagOf(ct)))))
 				if pt, ok := ct.Underlying().(*types.Pointer); ok && isStruct(pt.Elem()) {
 					// module code never stores a typed nil pointer in a closed interface
-					fs = append(fs, Implies(Eq(IfTag(v), IntLit(int64(vc.tagOf(ct)))), And(Not(Eq(IfVal(v), IntLit(0))), Eq(RType(IfVal(v)), IntLit(int64(vc.tagOf(pt.Elem())))))))
+					fs = append(fs, Implies(Eq(IfTag(v), IntLit(int64(vc.tagOf(ct)))), And(Not(Eq(IfVal(v), IntLit(0))), Eq(RType(IfVal(v)), IntLit(int64(vc.tagOf(pt.Elem())))), vc.aliveFacts(st, IfVal(v), pt.Elem()))))
 				}
 			}
 			fs = append(fs, Or(alts...))
@@ -345,4 +366,21 @@ func zeroOfSort(s Sort) string {
 		return NilIface.S
 	}
 	return "0"
+}
+
+// aliveFacts: ref is an allocated object of struct type t, and so are the
+// structs embedded in it by value.
+func (vc *VC) aliveFacts(st *State, ref Term, t types.Type) Term {
+	s, ok := t.Underlying().(*types.Struct)
+	if !ok {
+		return True
+	}
+	hn, hs := vc.env.aliveHeap(t)
+	fs := []Term{Select(st.Heap(vc, hn, hs), ref)}
+	for i := 0; i < s.NumFields(); i++ {
+		if isStruct(s.Field(i).Type()) && vc.p.moduleType(s.Field(i).Type()) {
+			fs = append(fs, vc.aliveFacts(st, vc.env.subRef(t, i, ref), s.Field(i).Type()))
+		}
+	}
+	return And(fs...)
 }
